@@ -670,6 +670,12 @@ func (cl *Cluster) CheckInvariants(ctx context.Context, s *Snapshot) []Problem {
 // boundary event for a stability window. (The ants pool's Running() counts idle workers until they are
 // purged after a second, so it cannot serve as the signal.) It returns false after patience.
 func (cl *Cluster) WaitQuiet(patience time.Duration) bool {
+	return cl.WaitQuietWindow(QuietWindow, patience)
+}
+
+// WaitQuietWindow is WaitQuiet with an explicit window (a check that is about to report something which late
+// asynchronous work could still repair waits once more, much longer, and looks again).
+func (cl *Cluster) WaitQuietWindow(window, patience time.Duration) bool {
 	deadline := time.Now().Add(patience)
 	last := cl.B.Seq()
 	stableSince := time.Now()
@@ -678,7 +684,7 @@ func (cl *Cluster) WaitQuiet(patience time.Duration) bool {
 		if seq != last || cl.B.Inflight() != 0 || cl.Locks.HeldCount() != 0 || cl.Locks.WaitingCount(cl.B.Frozen) != 0 {
 			last = seq
 			stableSince = time.Now()
-		} else if time.Since(stableSince) >= QuietWindow {
+		} else if time.Since(stableSince) >= window {
 			return true
 		}
 		// Work that core hands to its worker pool after an operation returned (the remap) shows up at the boundary
